@@ -95,6 +95,25 @@ def eval_call(eng, e, st):
             v_ = eng.deref(st, eng.ev1(e.args[0], st))
             want = "HttpResponse" if fn == "is_response" else "HttpRequest"
             return [(st, VBool(isinstance(v_, VRecord) and v_.cls == want))]
+        if fn in ("is_int", "is_true", "is_bytes", "is_str", "as_int", "as_bytes", "as_str") and fn not in st.env:
+            v_ = eng.deref(st, eng.ev1(e.args[0], st))
+            t_ = box(v_)
+            if fn == "is_int":
+                return [(st, VBool(z3.And(Val.is_VI(t_))))]
+            if fn == "is_true":
+                return [(st, VBool(z3.And(Val.is_VB(t_), Val.bval(t_))))]
+            if fn == "is_bytes":
+                return [(st, VBool(Val.is_VBy(t_)))]
+            if fn == "is_str":
+                return [(st, VBool(Val.is_VStr(t_)))]
+            if fn == "as_int":
+                return [(st, VInt(Val.ival(t_)))]
+            if fn == "as_bytes":
+                return [(st, VSeq(Val.byval(t_), "bytes"))]
+            return [(st, VSeq(Val.strval(t_), "str"))]
+        if fn == "hex_of" and fn not in st.env:
+            a_ = eng.as_iseq(st, eng.ev1(e.args[0], st)).t
+            return [(st, VSeq(smt_fn("hex_of", ISq, ISq)(a_), "str"))]
         if fn == "same_enum" and fn not in st.env:
             a_ = eng.deref(st, eng.ev1(e.args[0], st))
             b_ = eng.deref(st, eng.ev1(e.args[1], st))
